@@ -53,7 +53,22 @@ EvImp ==
 
 TraceRoots == {<<>>}
 TraceInit == Init /\ l = 1
-TraceNext == EvOp \/ EvImp
+\* the module named on the command line: whatever its spelling, no call below the loader leaves the root, and a module
+\* that lies outside is not loaded
+EvMod ==
+  /\ l <= Len(Trace) /\ Ev.e = "mod"
+  /\ LET rt == Ev.root
+         dir == Clean(<<>>, rt \o Ev.segs)
+         inside == IsPrefix(rt, dir)
+         bad == (IF ConfinedCalls(rt, Ev.calls) THEN {} ELSE {"Confined:module"})
+                \cup (IF "panic" \in DOMAIN Ev THEN {"Panic:module"} ELSE {})
+                \cup (IF "panic" \notin DOMAIN Ev /\ ~inside /\ (Ev.ok \/ Ev.hasmod) THEN {"NotRefused:module"} ELSE {})
+                \cup (IF dir # Ev.dir THEN {"HarnessTarget"} ELSE {})
+     IN bad # {} => Say("VERDICT", Ev.t, bad)
+  /\ l' = l + 1
+  /\ UNCHANGED vars
+
+TraceNext == EvOp \/ EvImp \/ EvMod
 TraceSpec == TraceInit /\ [][TraceNext]_<<vars, l>>
 Consumed == TLCSet(1, l)
 AllConsumed == TLCGet(1) = Len(Trace) + 1
